@@ -170,6 +170,18 @@ def _colour_events(seed, thorough, tid0):
     b[1] = np.nextafter(b[1], 3.0)
     ev.append({"tid": tid, "op": "flag", "clause": "PsnrInfIffEqual", "what": "one-ulp difference",
                "ok": bool(Q.psnr(b, a) != float("inf") and Q.relative_error(b, a) > 0)})
+    # a FLAT reference (constant image: the default data range max - min is zero) and a different image: finite PSNR, no exception
+    for flat, shp in ((0.0, (4, 4, 4)), (0.5, (3, 3)), (2.0, (1, 1)), (1.0, (2, 5, 3))):
+        tid += 1
+        ref = np.full(shp, flat)
+        other = ref.copy()
+        other.flat[0] += 0.25
+        try:
+            pf, pe = Q.psnr(other, ref), Q.psnr(ref.copy(), ref)
+            okf = bool(np.isfinite(pf) and pe == float("inf"))
+        except Exception:
+            okf = False
+        ev.append({"tid": tid, "op": "flag", "clause": "PsnrInfIffEqual", "what": "flat reference %r, default data range" % flat, "ok": okf})
     # nearly equal arrays (a few entries changed by 1 ulp .. 1e-9 relative): still unequal, so finite PSNR / non-zero error
     for n_ in range(12 if thorough else 6):
         tid += 1
